@@ -38,18 +38,27 @@ def renewRuns (ws : List String) (prev : Json) : Bool :=
 
 /-- Model of one op for one CA: stored commands (projection + pre-save listener), then the
 republish runs.  `clock`: the instant used for due checks. -/
-def stepCa (cfg : Cfg) (ws : List String) (prev obs : Json) (clock : Nat) (h : String) (m : CaM) : CaM × Acc :=
+def stepCa (cfg : Cfg) (ws : List String) (prev obs : Json) (clock : Nat) (republishAt : Nat) (h : String)
+    (m : CaM) : CaM × Acc :=
   let prevCa := jpath prev ["cas", h]
   let postCa := jpath obs ["cas", h]
   let post := parseCaObjects (jpath obs ["objects", h])
   let now := jnat (jget obs "now")
   let cmds := (caCmds obs).filter (·.1 == h)
-  let (m, a) := cmds.foldl (fun (m, a) (_, cmd) =>
+  -- the republish task may run before or after the op's commands (queue order): both are tried
+  let (runs, force) := republishRuns ws prev
+  let doRepublish (m : CaM) (a : Acc) : CaM × Acc :=
+    if runs > 0 && !(jisNull postCa) then
+      let (o, re) := reissueIfNeeded m.objs force clock cfg.timing (mkIns cfg.timing m.objs post)
+      ({ m with objs := o }, a.tag (if re then (if force then "republish-forced" else "republish-due") else "republish-notdue"))
+    else (m, a)
+  let (m, a, _) := cmds.foldl (fun (m, a, idx) (_, cmd) =>
+    let (m, a) := if idx == republishAt then doRepublish m a else (m, a)
     let (m, a) := projCmd cfg h postCa now cmd m a
     let evs := (jarr (jget cmd "events")).map (toObjEvent cfg.timing prevCa postCa post clock)
     match preSaveStep cfg.timing m.objs evs clock post with
-    | none => (m, a.err s!"{h} v{jnat (jget cmd "version")}: the model's pre-save listener fails")
-    | some (o, re) => ({ m with objs := o }, if re then a.tag "reissue" else a)) (m, ({} : Acc))
+    | none => (m, a.err s!"{h} v{jnat (jget cmd "version")}: the model's pre-save listener fails", idx + 1)
+    | some (o, re) => ({ m with objs := o }, if re then a.tag "reissue" else a, idx + 1)) (m, ({} : Acc), 0)
   -- renewal commands that were *not* stored: nothing may have been due
   let a := if renewRuns ws prev && !(jisNull postCa) then
       let seenKinds := cmds.flatMap fun (_, c) =>
@@ -67,25 +76,34 @@ def stepCa (cfg : Cfg) (ws : List String) (prev obs : Json) (clock : Nat) (h : S
             (routerRenewalPlan c.routers (some (thrOf now cfg.bgpsecReissue))).isEmpty then a
           else a.err s!"{h}/{dec rcn}: router certificates due for renewal were not renewed") a
     else a
-  -- republish runs (only CAs that still exist)
-  let (runs, force) := republishRuns ws prev
-  let (m, a) := if runs > 0 && !(jisNull postCa) then
-      let (o, re) := reissueIfNeeded m.objs force clock cfg.timing (mkIns cfg.timing m.objs post)
-      ({ m with objs := o }, a.tag (if re then (if force then "republish-forced" else "republish-due") else "republish-notdue"))
-    else (m, a)
+  let (m, a) := if republishAt ≥ cmds.length then doRepublish m a else (m, a)
   (m, a)
 
 /-- Model part of a step for all CAs with the given clock; returns new CA models and findings. -/
-def stepModel (st : St) (ws : List String) (obs : Json) (clock : Nat) : List (String × CaM) × Acc :=
+def stepModel (st : St) (ws : List String) (obs : Json) : List (String × CaM) × Acc :=
   let hs := dedupS ((st.cas.map (·.1)) ++ (caCmds obs).map (·.1) ++ handlesOf obs "objects")
   let (cas, acc) := hs.foldl (fun (cas, acc) h =>
-    let (m, a) := stepCa st.cfg ws st.prev obs clock h (getCa st h)
     -- a deleted CA leaves the model
     let gone := jisNull (jpath obs ["objects", h]) && jisNull (jpath obs ["cas", h])
+    -- the clock is only known to lie between `t0` and `now`, and the republish task may run before
+    -- or after the commands: the first candidate that agrees with the observation is taken
+    let t0 := jnat (jget obs "t0")
+    let now := jnat (jget obs "now")
+    let (runs, _) := republishRuns ws st.prev
+    let n := ((caCmds obs).filter (·.1 == h)).length
+    let positions : List Nat := if runs > 0 then (List.range (n + 1)).reverse else [n]
+    let cands : List (Nat × Nat) :=
+      (positions.map fun k => (now, k)) ++ (if t0 != now then positions.map fun k => (t0, k) else [])
+    let results := cands.map fun (clock, first) =>
+      let (m, a) := stepCa st.cfg ws st.prev obs clock first h (getCa st h)
+      let a := if gone then a else
+        (a.errsOf (diffCa h m.objs (parseCaObjects (jpath obs ["objects", h])))).errsOf
+          (if jisNull (jpath obs ["cas", h]) then [] else diffProj h m (jpath obs ["cas", h]))
+      (m, a)
+    let (m, a) := match results.find? (·.2.errs.isEmpty) with
+      | some r => r
+      | none => results.headD ({}, {})
     let cas := if gone then cas else cas ++ [(h, m)]
-    let a := if gone then a else
-      (a.errsOf (diffCa h m.objs (parseCaObjects (jpath obs ["objects", h])))).errsOf
-        (if jisNull (jpath obs ["cas", h]) then [] else diffProj h m (jpath obs ["cas", h]))
     (cas, { errs := acc.errs ++ a.errs, tags := a.tags.foldl (fun ts t => if ts.contains t then ts else ts ++ [t]) acc.tags }))
     (([] : List (String × CaM)), ({} : Acc))
   -- repository synchronisation: the model's delta applied to the server content seen before.
@@ -204,7 +222,7 @@ def stepOracle (st : St) (ws : List String) (obs : Json) : St × List String :=
   let finished : List (String × String) := (caCmds obs).flatMap fun (h, cmd) =>
     (jarr (jget cmd "events")).filterMap fun e =>
       if evType e == "key_roll_finished" then some (h, jstr (jget e "resource_class_name")) else none
-  let p8 := wait.flatMap fun (h, rcn, key) =>
+  let p8k : List (String × String) := wait.flatMap fun (h, rcn, key) =>
     if !(finished.contains (h, rcn)) then [] else
     let parent := jstr (jpath st.prev ["cas", h, "resources", rcn, "parent_handle"])
     let pca := jpath obs ["cas", parent]
@@ -215,10 +233,12 @@ def stepOracle (st : St) (ws : List String) (obs : Json) : St × List String :=
     let revoked := jstr used == "revoked"
     if !stillPublished && revoked then [] else
     let mapped := !(jfields (jpath pca ["children", h, "rcn_map"])).isEmpty
-    [if mapped then "RevokeRequestEffective/mapped-class-name" else "RevokeRequestEffective"]
+    [(if mapped then "RevokeRequestEffective/mapped-class-name" else "RevokeRequestEffective", key)]
+  let p8 := p8k.map (·.1)
+  let ignored := dedupS (st.ignoredRevokes ++ p8k.map (·.2))
   let wait := wait.filter fun (h, rcn, _) => !(finished.contains (h, rcn)) && !(jisNull (jpath obs ["cas", h]))
-  let p9 := rpPreds obs objs fun h => inSync h && !(syncPending obs h)
-  ({ st with seen, revokeWait := wait, unsynced }, dedupS (p1 ++ p2 ++ p3 ++ p4 ++ p5 ++ p6 ++ p7 ++ p8 ++ p9))
+  let p9 := rpPreds obs objs (fun h => inSync h && !(syncPending obs h)) ignored
+  ({ st with seen, revokeWait := wait, unsynced, ignoredRevokes := ignored }, dedupS (p1 ++ p2 ++ p3 ++ p4 ++ p5 ++ p6 ++ p7 ++ p8 ++ p9))
 
 /-- Which property an oracle predicate belongs to. -/
 def propsOf (pred : String) : List String :=
@@ -249,13 +269,7 @@ def step (st : St) (ws : List String) (obs : Json) : St × String :=
     if !st.synced then
       if orc.isEmpty then (stO, "skip unsynced") else (stO, s!"FAIL oracle {orcS}")
     else
-      -- the clock is only known to lie between `t0` and `now`: either is accepted
-      let t0 := jnat (jget obs "t0")
-      let now := jnat (jget obs "now")
-      let (cas1, a1) := stepModel st ws obs now
-      let (cas, a) := if a1.errs.isEmpty || t0 == now then (cas1, a1) else
-        let (cas2, a2) := stepModel st ws obs t0
-        if a2.errs.isEmpty then (cas2, a2) else (cas1, a1)
+      let (cas, a) := stepModel st ws obs
       if !orc.isEmpty then ({ stO with cas }, s!"FAIL oracle {orcS}")
       else if a.errs.isEmpty then
         let ret := jstr (jget obs "ret")
